@@ -60,7 +60,7 @@ def norm(lines, wdir):
 
 def make_shapes(ctx):
     """One module with: a plain package, one with in-package tests, one with external tests, one with both."""
-    w = wsmod.make(ctx, "ws_c08", 4, adv=("imports", "noimports", "gated", "onlyclause"), dsl=True)
+    w = wsmod.make(ctx, "ws_c08", 4, adv=("imports", "noimports", "gated", "onlyclause", "percent", "comments"), dsl=True)
     d = w["dir"]
     # files without any declaration still carry comments that checkers report
     open(os.path.join(d, "p0", "doc.go"), "w").write("//Package p0 has a doc comment without a space after the slashes.\npackage p0\n")
@@ -161,6 +161,8 @@ def run(ctx):
                          % (name, fe, len(res[fe]), len(base), only_cli[:3], fe, only_fe[:3]),
                          {"config": name, "frontend": fe, "only_cli": only_cli[:20], "only_other": only_fe[:20]})
 
+    oldmod = old_module(ctx, bins)
+    compared += oldmod
     fixes = fix_forwarding(ctx, w)
     st, tr = vlib.tlc_states_total(ctx)
     cov = {
@@ -171,6 +173,42 @@ def run(ctx):
     }
     return ctx.finish("model_checking", cov, ["workspace = example files re-packaged into 4 packages with in-package and external tests",
                                               "equivalent configurations follow Selection!Translatable (explicit lists on both sides, or all defaults, or enable-all)"])
+
+
+GATED = "octalLiteral,wrapperFunc,syncMapLoadAndDelete,timeExprSimplify,badSyncOnceFunc,rangeAppendAll,sloppyLen"
+
+
+def old_module(ctx, bins):
+    """A module whose go directive is older than the gates of the version-dependent checkers, analysed WITHOUT -go:
+    an unset target version means 'no assumptions' on every front-end, whatever the module says."""
+    d = os.path.dirname(ctx.path("ws_c08_old", "go.mod"))
+    open(os.path.join(d, "go.mod"), "w").write("module example.com/oldmod\n\ngo 1.16\n")
+    os.makedirs(os.path.join(d, "gated"), exist_ok=True)
+    src = open(os.path.join(vlib.VERIF, "corpus", "adv", "gated", "gated.go")).read()
+    open(os.path.join(d, "gated", "gated.go"), "w").write(src)
+    r = subprocess.run(["go", "vet", "./..."], cwd=d, env=vlib.goenv(), capture_output=True, text=True)
+    if r.returncode != 0 and ("cannot" in r.stderr or "undefined" in r.stderr or "requires go" in r.stderr):
+        raise vlib.Infra("C08 old-module workspace does not type-check: " + r.stderr[-800:])
+    res = {}
+    for fe in bins:
+        args = (["check"] if fe in ("cli", "twin") else []) + ["-enable=" + GATED, "-disable=", "./..."]
+        r = subprocess.run([bins[fe]] + args, cwd=d, capture_output=True, text=True, env=vlib.goenv(), timeout=600)
+        if "panic:" in r.stderr:
+            ctx.fail("Crash %s" % fe, "%s crashed on the go 1.16 module: %s" % (fe, r.stderr[-600:]), {})
+        res[fe] = norm(r.stderr.splitlines() + r.stdout.splitlines(), d)
+    base = res["cli"]
+    if not ctx.violations and not any("wrapperFunc" in l or "timeExprSimplify" in l for l in base):
+        raise vlib.Infra("the go 1.16 module produced no version-gated diagnostics on the CLI: %s" % base[:3])
+    n = 0
+    for fe in ("twin", "analysis", "twin-analysis"):
+        n += 1
+        if res[fe] != base:
+            only_cli = [l for l in base if l not in res[fe]]
+            only_fe = [l for l in res[fe] if l not in base]
+            ctx.fail("DiagnosticsDiffer %s oldmodule" % ("analysis" if "analysis" in fe else "twin"),
+                     "module with `go 1.16`, no -go flag: %s reports %d lines, go-critic %d; only CLI: %s; only %s: %s"
+                     % (fe, len(res[fe]), len(base), only_cli[:3], fe, only_fe[:3]), {"frontend": fe, "only_cli": only_cli[:20], "only_other": only_fe[:20]})
+    return n
 
 
 def fix_forwarding(ctx, w):
